@@ -385,3 +385,18 @@ Qed.
 
 Lemma all_ok_pal l : all_ok (map pal256_chk l) = Ok tt.
 Proof. induction l as [|c l IH]; [reflexivity|]. cbn [map all_ok]. rewrite pal256_chk_ok. exact IH. Qed.
+
+(* ---------- the tabulated brute force of the correspondence check ---------- *)
+Lemma palette_entries_eq : palette_entries = map (entry xcube_z xgreys_z) palette_indices.
+Proof. vm_compute. reflexivity. Qed.
+
+Lemma fold_left_map_min (f : N -> vec) v l : forall init,
+  fold_left (fun m e => Z.min m (d2 v e)) (map f l) init = fold_left (fun m n => Z.min m (d2 v (f n))) l init.
+Proof. induction l as [|a l IH]; intros init; [reflexivity|]. cbn [map fold_left]. apply IH. Qed.
+
+Theorem best_d2_tab_eq v : best_d2_tab v = best_d2 xcube_z xgreys_z v.
+Proof. unfold best_d2_tab, best_d2. rewrite palette_entries_eq. apply fold_left_map_min. Qed.
+
+Theorem best_d2_tab_spec v m :
+  (16 <= m < 256)%N -> best_d2_tab v <= d2 v (entry xcube_z xgreys_z m).
+Proof. intros H. rewrite best_d2_tab_eq. apply best_d2_spec, H. Qed.
